@@ -35,12 +35,20 @@ type c13Plan struct {
 	Logout string `json:"logout,omitempty"` // answer | late | never
 	// ConcurrentClose (closed-calls): two goroutines call Close on the channel at the same time.
 	ConcurrentClose bool `json:"concurrent_close,omitempty"`
-	LateMs          int  `json:"late_ms,omitempty"`
-	DoubleClose     bool `json:"double_close,omitempty"`
-	CloseAfter      int  `json:"close_after,omitempty"`
-	NLogical        int  `json:"nlogical,omitempty"`
-	Sends           int  `json:"sends,omitempty"`
-	ConsumeSome     int  `json:"consume_some,omitempty"`
+	// DeadPeer (conn-close): the peer has closed its side long before and nobody received: the reader has queued
+	// more errors than the connection's error queue holds when Conn.Close is called.
+	DeadPeer bool `json:"dead_peer,omitempty"`
+	// BadPackets (close-errqueue): so many packets that cannot be parsed arrive on the idle channel that the
+	// channel's error queue overflows before Close is called.
+	BadPackets int `json:"bad_packets,omitempty"`
+	// ConnClose (close-errqueue): close the connection instead of the channel.
+	ConnClose   bool `json:"conn_close,omitempty"`
+	LateMs      int  `json:"late_ms,omitempty"`
+	DoubleClose bool `json:"double_close,omitempty"`
+	CloseAfter  int  `json:"close_after,omitempty"`
+	NLogical    int  `json:"nlogical,omitempty"`
+	Sends       int  `json:"sends,omitempty"`
+	ConsumeSome int  `json:"consume_some,omitempty"`
 }
 
 type c13 struct{}
@@ -63,7 +71,7 @@ func (c13) Components() map[string]string {
 
 func (c13) Gen(r *Rand, idx int, tier string) interface{} {
 	p := &c13Plan{Knobs: GenKnobs(r)}
-	p.Kind = Pick(r, []string{"cancel", "cancel", "closed-calls", "conn-close", "close-queue", "close-queue", "close-send", "close-recv"})
+	p.Kind = Pick(r, []string{"cancel", "cancel", "closed-calls", "conn-close", "close-queue", "close-queue", "close-send", "close-recv", "close-errqueue"})
 	p.FlushFull = r.Pct(40)
 	p.Logical = r.Pct(40)
 	p.QueueSize = Pick(r, []int{1, 2, 3, 5, 100})
@@ -89,6 +97,11 @@ func (c13) Gen(r *Rand, idx int, tier string) interface{} {
 	p.LateMs = Pick(r, []int{10, 1000, 59000, 61000})
 	p.DoubleClose = r.Pct(40)
 	p.ConcurrentClose = p.Kind == "closed-calls" && r.Pct(40)
+	p.DeadPeer = p.Kind == "conn-close" && r.Pct(30)
+	if p.Kind == "close-errqueue" {
+		p.BadPackets = 1 + r.Intn(14)
+		p.ConnClose = r.Pct(40)
+	}
 	p.CloseAfter = r.Intn(10)
 	p.NLogical = r.Intn(3)
 	p.Sends = 1 + r.Intn(4)
@@ -162,6 +175,9 @@ func c13Pending(p *c13Plan) int {
 	return n - c
 }
 
+// c13EndPeer ends the peer's side of the current run's connection (set by Run; runs are sequential per process).
+var c13EndPeer func()
+
 type c13Res struct {
 	setupErr   string
 	viol       []string // "class|sig|detail"
@@ -217,6 +233,14 @@ func (c13) Run(plan interface{}, schedSeed uint64, replay []simrt.Choice, lenien
 			}
 			return
 		}
+		if strings.Contains(string(m.Body), "bad") {
+			// packets that cannot be parsed: a ROW without any format before it, one per packet
+			for k := 0; k < p.BadPackets; k++ {
+				pr.SendPackets([][]byte{peer.MakePacket(peer.BufResponse, 0, m.Channel, 0, []byte{0xD1, byte(k), 0, 0, 0})})
+			}
+			s.Fault("unparsable-packets")
+			return
+		}
 		if !strings.Contains(string(m.Body), "req") {
 			return
 		}
@@ -235,6 +259,10 @@ func (c13) Run(plan interface{}, schedSeed uint64, replay []simrt.Choice, lenien
 		pr.SendPackets(peer.Packetise(body, peer.CutsBySize(len(body), 9), peer.BufResponse, m.Channel, eom))
 	}
 
+	c13EndPeer = func() {
+		pr.Conn.End(simrt.TermEOF, false)
+		s.Fault("close-eof")
+	}
 	res := &c13Res{cancelSeq: -1}
 	var readerParked bool
 	out := s.Run(func() {
@@ -272,6 +300,8 @@ func (c13) Run(plan interface{}, schedSeed uint64, replay []simrt.Choice, lenien
 			c13CloseSend(p, res, conn, ch)
 		case "close-recv":
 			c13CloseRecv(p, res, conn, ch)
+		case "close-errqueue":
+			c13CloseErrQueue(p, res, conn, ch)
 		}
 		_ = bg
 	})
@@ -315,7 +345,7 @@ func (c13) Run(plan interface{}, schedSeed uint64, replay []simrt.Choice, lenien
 	if res.closeDone && res.closeEnd-res.closeStart > 61*time.Second {
 		v.Violate("slow-close", "close took longer than the logout timeout", "%s: Close took %v of simulated time", p.Kind, res.closeEnd-res.closeStart)
 	}
-	if p.Kind == "conn-close" && v.Class == "" {
+	if (p.Kind == "conn-close" || p.Kind == "close-errqueue") && v.Class == "" {
 		if pr.Conn.CloseCalls == 0 {
 			v.Violate("transport-not-closed", "transport not closed by Conn.Close", "Conn.Close returned but the transport's Close was never called")
 		}
@@ -534,6 +564,11 @@ func c13ConnClose(p *c13Plan, res *c13Res, conn *tds.Conn, ch0, ch *tds.Channel)
 		}
 		simrt.Sleep(time.Millisecond)
 	}
+	if p.DeadPeer {
+		// the peer goes away and nobody receives: the reader queues one error per read timeout
+		c13EndPeer()
+		simrt.Sleep(80 * time.Second)
+	}
 	res.closeStart = simrt.SimNow()
 	_ = conn.Close()
 	res.closeEnd = simrt.SimNow()
@@ -543,6 +578,34 @@ func c13ConnClose(p *c13Plan, res *c13Res, conn *tds.Conn, ch0, ch *tds.Channel)
 		if pk != nil || !errors.Is(err, tds.ErrChannelClosed) {
 			res.violate("channel-open-after-conn-close", "conn-close: channel not closed", "channel #%d after Conn.Close: NextPackage returned (%v, %v)", i, pk, err)
 		}
+	}
+	simrt.Sleep(time.Second)
+}
+
+// c13CloseErrQueue: Close (or Conn.Close) while the channel's error queue is full of parse errors nobody consumed.
+func c13CloseErrQueue(p *c13Plan, res *c13Res, conn *tds.Conn, ch *tds.Channel) {
+	bg, cancel := simrt.WithTimeout(context.Background(), 5*time.Minute)
+	defer cancel()
+	if err := ch.SendPackage(bg, &tds.LanguagePackage{Cmd: "bad"}); err != nil {
+		res.setupErr = "send: " + err.Error()
+		return
+	}
+	simrt.Sleep(time.Second)
+	res.inCall = true
+	res.closeStart = simrt.SimNow()
+	if p.ConnClose {
+		_ = conn.Close()
+	} else {
+		_ = ch.Close()
+	}
+	res.closeEnd = simrt.SimNow()
+	res.closeDone = true
+	pk, err := ch.NextPackage(bg, false)
+	if pk != nil || !errors.Is(err, tds.ErrChannelClosed) {
+		res.violate("delivery-after-close", "closed: NextPackage after Close", "after Close: NextPackage returned (%v, %v)", pk, err)
+	}
+	if !p.ConnClose {
+		_ = conn.Close()
 	}
 	simrt.Sleep(time.Second)
 }
